@@ -705,7 +705,7 @@ func scenC07(r *Run, judged bool) {
 	// now and then a very long session: hundreds of pages opened one after the other (the same
 	// few items over and over, nothing new to fetch), then all the way back through the history
 	var marathon []byte
-	if judged && t.Chance(1, 60) {
+	if judged && t.Chance(1, 100) {
 		n := 250 + t.Draw(80)
 		for k := 0; k < n; k++ {
 			marathon = append(marathon, ' ')
